@@ -80,9 +80,9 @@ func DumpAccount(db protocol.ChainDB, am *account.Manager, blockHash common.Hash
 		for _, k := range keys.Slots {
 			v, err := acc.GetStorageState(k)
 			if err != nil {
-				d["slot."+k.Hex()[:10]] = "err:" + err.Error()
+				d[slotKey(k)] = "err:" + err.Error()
 			} else if len(v) > 0 {
-				d["slot."+k.Hex()[:10]] = common.ToHex(v)
+				d[slotKey(k)] = common.ToHex(v)
 			}
 		}
 		for _, c := range keys.AssetCodes {
@@ -102,6 +102,18 @@ func DumpAccount(db protocol.ChainDB, am *account.Manager, blockHash common.Hash
 		}
 	}
 	return d
+}
+
+// slotKey names a storage slot in a dump: small slot numbers by value, hashes by their first bytes.
+func slotKey(k common.Hash) string {
+	t := strings.TrimLeft(k.Hex()[2:], "0")
+	if len(t) > 10 {
+		t = k.Hex()[:10]
+	}
+	if t == "" {
+		t = "0"
+	}
+	return "slot." + t
 }
 
 // StateDump is the dump of a set of accounts at one block.
@@ -227,6 +239,9 @@ func (g *TxGen) DumpKeys() *DumpKeys {
 		k.Slots = append(k.Slots, common.BigToHash(big.NewInt(int64(i))))
 	}
 	k.Slots = append(k.Slots, params.TermRewardContract.Hash())
+	for _, i := range []int64{0x11, 0x12, 0x13, 0x14, 0x20, 0x21} { // the block-context recorder contract (txgen, stream envc)
+		k.Slots = append(k.Slots, common.BigToHash(big.NewInt(i)))
+	}
 	for _, a := range g.Assets {
 		k.AssetCodes = append(k.AssetCodes, a.Code)
 		k.AssetIds = append(k.AssetIds, a.Ids...)
